@@ -1585,6 +1585,40 @@ def gen_readesc(lines):
 
 GENERATORS.append(("ReadEsc", gen_readesc))
 
+# ------------------------------------------------------------------ the kind of an Io error (C13: "carrying that error's kind")
+def gen_iokind(lines):
+    t = src("error.rs")
+    body = fn_body(t, r"pub fn io\(error: io::Error\) -> Self\s*\{") or ""
+    stores = re.search(r"Error\s*\{\s*err:\s*Box::new\(\s*ErrorImpl\s*\{\s*code:\s*ErrorCode::Io\(error\)\s*,\s*line:\s*0\s*,\s*column:\s*0\s*,?\s*\}\s*\)\s*,?\s*\}", body)
+    if not stores: miss("iokind.error_io", "`Error::io(error)` = `Error { err: Box::new(ErrorImpl { code: ErrorCode::Io(error), line: 0, column: 0 }) }` not found")
+    lines.append("/-- `Error::io(error)` stores the very `io::Error` it is given: `code: ErrorCode::Io(error), line: 0, column: 0` -/")
+    lines.append("def errorIoStoresError : Bool := %s" % ("true" if stores else "false"))
+    body = fn_body(t, r"pub fn io_error_kind\(&self\) -> Option<ErrorKind>\s*\{") or ""
+    inner = re.search(r"if let ErrorCode::Io\((\w+)\) = &self\.err\.code \{\s*Some\(\1\.kind\(\)\)\s*\} else \{\s*None\s*\}", body)
+    if not inner: miss("iokind.io_error_kind", "`if let ErrorCode::Io(io_error) = &self.err.code { Some(io_error.kind()) } else { None }` not found")
+    lines.append("/-- `Error::io_error_kind`: `if let ErrorCode::Io(io_error) = &self.err.code { Some(io_error.kind()) } else { None }` -/")
+    lines.append("def ioErrorKindReturnsInner : Bool := %s" % ("true" if inner else "false"))
+    body = fn_body(t, r"pub fn classify\(&self\) -> Category\s*\{") or ""
+    cio = re.search(r"ErrorCode::Io\(_\)\s*=>\s*Category::Io", body)
+    if not cio: miss("iokind.classify_io", "`ErrorCode::Io(_) => Category::Io` not found in classify")
+    lines.append("/-- `classify`: `ErrorCode::Io(_) => Category::Io` -/")
+    lines.append("def classifyIoIsIo : Bool := %s" % ("true" if cio else "false"))
+    r = src("read.rs")
+    io = fn_body(r, r"impl<'de,\s*R>\s*Read<'de>\s*for\s+IoRead<R>\s*where\s*R:\s*io::Read,\s*\{") or ""
+    n = 0
+    for f in ["next", "peek"]:
+        b = fn_body(io, r"fn %s\(&mut self\) -> Result<Option<u8>>\s*\{" % f) or ""
+        arms = re.findall(r"Some\(Err\((\w+)\)\)\s*=>\s*Err\(Error::io\(\1\)\)", b)
+        others = re.findall(r"Some\(Err\(", b)
+        if len(arms) != 1 or len(others) != 1:
+            miss("iokind.ioread_" + f, "`Some(Err(err)) => Err(Error::io(err))` is not the one arm for a failed read in IoRead::%s" % f)
+        n += len(arms)
+    lines.append("/-- `IoRead::next` / `IoRead::peek`: arms `Some(Err(err)) => Err(Error::io(err))` (one each: the only thing done with a failed read) -/")
+    lines.append("def ioReadErrArms : Nat := %d" % n)
+
+
+GENERATORS.append(("IoKind", gen_iokind))
+
 
 def main():
     os.makedirs(OUT, exist_ok=True)
